@@ -442,13 +442,15 @@ def run_glue(rep, pid, tier, rnd):
     """KauriGlue behaviours replayed into Kauri.fit (both execution variants only differ by the Split class here: compiled)."""
     confs = [(6, 1, 5, 40), (7, 1, 6, 40), (5, 2, 2, 20)] if tier == "quick" else [(5, 1, 4, 600), (6, 1, 5, 600), (7, 1, 6, 600), (5, 2, 2, 400), (6, 2, 2, 300)]
     kinds = collections.Counter()
-    for (n, d, v, num) in confs:
+    needed = ("star", "switch", "dstar/both-children-leave", "realloc/both-children-leave")
+    model, extra = None, 0
+    while confs:
+        (n, d, v, num) = confs.pop(0)
         ds = [[[i] * d for i in range(min(n, v + 1))] + [[rnd.randint(0, v)] * d for _ in range(n - min(n, v + 1))],
               [[(i * 3 + f) % (v + 1) for f in range(d)] for i in range(n)]]
         ds += [[[rnd.randint(0, v) for _ in range(d)] for _ in range(n)] for _ in range(3)]
-        r, cases = glue_scripts(n, d, v, ds, num)
+        r, cases = glue_scripts(n, d, v, ds, num, seed=SEED + 101 * extra)
         rep.add_tlc("KauriGlue", r, note=f"N={n} D={d} V={v} simulate num={num}/worker: {len(cases)} distinct scripts")
-        model = None
         for c in cases:
             for h in c["hist"]:
                 kinds[h["kind"] + ("" if h["stay"] else "/both-children-leave")] += 1
@@ -460,7 +462,10 @@ def run_glue(rep, pid, tier, rnd):
                     rep.violation(f"Kauri.fit with a scripted search does not follow KauriGlue: {text}; X={c['X']} kernel={c['kn']} "
                                   f"parameters={c['par']}", {"glue_case": c, "problem": [owner, tag, text]}, tags=("glue", tag))
                     break
+        if not confs and extra < 4 and any(kinds.get(k, 0) < 3 for k in needed):
+            extra += 1                       # a rare kind of step is still missing from the random scripts: draw more of them
+            confs.append((7, 1, 6, 80))
     rep.extra["glue_steps_by_kind"] = dict(kinds)
-    for k in ("star", "switch", "dstar/both-children-leave", "realloc/both-children-leave"):
+    for k in needed:
         if not kinds.get(k):
             raise MachineryError(f"KauriGlue scripts never contained a {k} step: the replay would be vacuous for it")
